@@ -38,6 +38,7 @@ EXPLANATION = (
     "R09.5 each task builds its metric lists from its own tables over (truth, scores), attaches them at the right level "
     "and labels itself with its own name. Metric values against independent formulas and order independence are "
     "scikit-learn's / numerical and are not decided."
+    "R09.6 the lists that make up a task function's result (per-item objects, truth rows, score rows) receive their entries in the same loops under the same conditions. "
 )
 ASSUMPTIONS = ["scikit-learn's accuracy_score, balanced_accuracy_score, top_k_accuracy_score, jaccard_score, average_precision_score compute what they document (trusted)"]
 
